@@ -58,7 +58,7 @@ Fixpoint nodup_syms (l : list sym) : bool :=
 (* no two function declarations get the same mangled name *)
 Definition unique_fns (prog : list item) : bool := nodup_syms (map d_path (fn_decls prog)).
 
-(* no `let` statement inside a module (finding F8 / F17b) *)
+(* no `let` statement inside a module (the crude form of mod_lets_apart below) *)
 Fixpoint no_let_item (it : item) : bool :=
   match it with
   | ILet _ _ => false
@@ -68,6 +68,34 @@ Fixpoint no_let_item (it : item) : bool :=
 Definition top_no_mod_let (it : item) : bool :=
   match it with IMod _ _ body => forallb no_let_item body | _ => true end.
 Definition no_mod_let (prog : list item) : bool := forallb top_no_mod_let prog.
+
+(* the names convert_expr looks up in module_context_map while it converts e: `let` patterns and `letrec` names *)
+Fixpoint ctx_binders (e : expr) : list sym :=
+  match e with
+  | ELet pat e1 e2 => pat ++ ctx_binders e1 ++ match e2 with Some t => ctx_binders t | None => [] end
+  | ELetRec f e1 e2 => f :: ctx_binders e1 ++ match e2 with Some t => ctx_binders t | None => [] end
+  | ELam _ b => ctx_binders b
+  | EApp f args => ctx_binders f ++ flat_map ctx_binders args
+  | EThen e1 e2 => ctx_binders e1 ++ match e2 with Some t => ctx_binders t | None => [] end
+  | EConst _ | EErr | EVar _ | EQVar _ => []
+  end.
+
+(* the `let`s written inside a module, and their names (module_context_map is keyed by these BARE names) *)
+Definition mod_let_decls (prog : list item) : list (list ident * ident * expr) :=
+  filter (fun d => nonempty (fst (fst d))) (let_decls prog).
+Definition mod_let_names (prog : list item) : list sym := map (fun d => [snd (fst d)]) (mod_let_decls prog).
+
+(* every other name the resolution pass looks up in module_context_map by a bare name: top-level functions and
+   `let`s, and the `let` / `letrec` binders inside all function bodies and initialisers *)
+Definition other_binders (prog : list item) : list sym :=
+  flat_map (fun d => (if nonempty (d_mod d) then [] else [[d_name d]]) ++ ctx_binders (d_body d)) (fn_decls prog)
+  ++ flat_map (fun d => (if nonempty (fst (fst d)) then [] else [[snd (fst d)]]) ++ ctx_binders (snd d)) (let_decls prog).
+
+(* the name of a `let` written inside a module is bound nowhere else in the program: not by a second module `let`,
+   not by a top-level `let` or function, not by a `let` / `letrec` inside a body or initialiser (what is left of
+   finding F17b; no_mod_let implies it) *)
+Definition mod_lets_apart (prog : list item) : bool :=
+  nodup_syms (mod_let_names prog) && forallb (fun x => negb (mem x (mod_let_names prog))) (other_binders prog).
 
 (* no `use` statement makes a private member public or re-exports one (finding F9): no key of the alias map is
    the name of a private module member, and no multi-segment key (these are the names exported by `pub use`
